@@ -32,10 +32,10 @@ from harness import tlc as tlcmod
 from harness import tla_values
 
 VERIF = tlcmod.VERIF
-SITES = ["dmCopy", "iterInit", "gcPrivate", "closedDir", "ompRound", "iterFactor"]
-SITE_DEFECT = dict(dmCopy="D1", iterInit="D13", gcPrivate="D14", closedDir="D18", ompRound="D19", iterFactor="IterMesh drops factor")
-RELEVANT = dict(qpoints={"dmCopy", "ompRound"}, mesh={"ompRound"}, itermesh={"iterInit", "gcPrivate", "iterFactor"},
-                band={"closedDir"}, direct=set())
+SITES = ["dmCopy", "iterInit", "gcPrivate", "closedDir", "ompRound", "iterFactor", "qCopy"]
+SITE_DEFECT = dict(dmCopy="D1", iterInit="D13", gcPrivate="D14", closedDir="D18", ompRound="D19", iterFactor="IterMesh drops factor", qCopy="solver reads non-contiguous q-points")
+RELEVANT = dict(qpoints={"dmCopy", "ompRound", "qCopy"}, mesh={"ompRound"}, itermesh={"iterInit", "gcPrivate", "iterFactor"},
+                band={"closedDir", "qCopy"}, direct={"qCopy"})
 INV = ["TypeOK", "UndefinedVariableFree", "InvNoError", "InvFreq", "InvEigvec", "InvDynmat", "InvGV",
        "InvGrid", "InvDiag", "InvSameOrder", "InvNoGarbage", "InvPositionIndependent"]
 IMPL = ["ImplNoError", "ImplFreq", "ImplEigvec", "ImplDynmat", "ImplGV", "ImplGrid", "ImplDiag",
@@ -65,7 +65,7 @@ def tla(v):
     raise TypeError(type(v))
 
 
-CFG_FIELDS = ["path", "kind", "omp", "nac", "dec", "wev", "wgv", "wdm", "conn", "dir", "shape", "meshlen", "gc", "qs", "fac"]
+CFG_FIELDS = ["path", "kind", "omp", "nac", "dec", "wev", "wgv", "wdm", "conn", "dir", "shape", "meshlen", "gc", "qs", "fac", "lay"]
 
 
 def event_json(e):
@@ -106,19 +106,38 @@ def mc_access(codes_expr, emit=False):
 
 
 # ---------------------------------------------------------------------------------------
+LAYS = ["list", "tuple", "farray", "tview", "strided", "colslice", "f32", "int", "readonly"]
+
+
 def make_plan(ctx, cfgs):
     entries = ENTRIES_QUICK if ctx.quick else ENTRIES_THOROUGH
     cases = []
     base = {}
     for c in cfgs:
-        base.setdefault(json.dumps({k: v for k, v in c.items() if k != "fac"}, sort_keys=True), {})[c["fac"]] = c
+        base.setdefault(json.dumps({k: v for k, v in c.items() if k not in ("fac", "lay")}, sort_keys=True), {})[(c["fac"], c["lay"])] = c
     facs = ["vasp", "cm", "x37"]
+    nlay = 0
     for k, key in enumerate(sorted(base)):
-        # quick: one unit conversion factor per configuration, rotating; thorough: the default and one other
-        pick = [facs[(k + ctx.seed) % 3]] if ctx.quick else ["vasp", facs[1 + (k + ctx.seed) % 2]]
-        for c in (base[key][f] for f in pick):
+        variants = base[key]
+        # quick: one unit conversion factor per configuration, rotating; where the default factor falls on a route that takes
+        # q-points from the caller, one of the other presentations of the q-point argument, rotating.  thorough: the default
+        # and one other factor, and every presentation.
+        if ctx.quick:
+            f = facs[(k + ctx.seed) % 3]
+            lays = [l for (ff, l) in variants if ff == "vasp" and l != "carray"]
+            if f == "vasp" and lays:
+                nlay += 1
+                lay = LAYS[(nlay + ctx.seed) % len(LAYS)]
+                if lay == "int" and json.loads(key)["nac"] != "none":
+                    lay = "f32"      # integer q-points are zone centres: with NAC they are Gamma-like, outside the token model
+                pick = [("vasp", lay)]
+            else:
+                pick = [(f, "carray")]
+        else:
+            pick = [("vasp", "carray"), (facs[1 + (k + ctx.seed) % 2], "carray")] + [(ff, l) for (ff, l) in sorted(variants) if l != "carray" and not (l == "int" and json.loads(key)["nac"] != "none")]
+        for c in (variants[p] for p in pick):
             can_file = c["path"] in ("qpoints", "mesh", "band")
-            if ctx.quick:
+            if ctx.quick or c["lay"] != "carray":
                 combos = [(entries[(k + ctx.seed) % len(entries)], bool((k // 3 + ctx.seed) % 2))]
             else:
                 combos = [(en, cm) for en in entries for cm in (False, True)]
@@ -252,6 +271,8 @@ def class_tag(c):
         tag.append("closed-path+nac")
     if c.get("fac", "vasp") != "vasp":
         tag.append("non-default-factor")
+    if c.get("lay", "carray") not in ("carray", "list", "tuple"):
+        tag.append("q-argument:" + ("non-contiguous" if c["lay"] in ("farray", "tview", "strided", "colslice") else c["lay"]))
     return "/".join(tag)
 
 
@@ -576,8 +597,8 @@ def run_inner(ctx):
     hprocs = start_history_drivers(ctx, hists, rundir)
     pool = ThreadPoolExecutor(max_workers=3)
     mcp, cfgp = mc_access("{Pinned}")
-    fut_pinned = pool.submit(tlcmod.run, "MC_AccessPaths", cfg_text=cfgp, extra_files={"MC_AccessPaths.tla": mcp},
-                             extra_args=("-continue",), workers=3)
+    # (no -continue: with thousands of violating states TLC spends minutes rebuilding one trace per violation)
+    fut_pinned = pool.submit(tlcmod.run, "MC_AccessPaths", cfg_text=cfgp, extra_files={"MC_AccessPaths.tla": mcp}, workers=3)
     try:
         from harness import bootstrap  # noqa: F401  (real estimate_band_connection for the replay below)
         band_connection(ctx)
@@ -673,8 +694,7 @@ def run_inner(ctx):
             res = res_pinned
         else:
             mc, cfg = mc_access("{%s}" % code_tla(variant))
-            res = ctx.tlc("MC_AccessPaths", cfg_text=cfg, extra_files={"MC_AccessPaths.tla": mc}, requirement=False,
-                          extra_args=("-continue",), workers=6)
+            res = ctx.tlc("MC_AccessPaths", cfg_text=cfg, extra_files={"MC_AccessPaths.tla": mc}, requirement=False, workers=6)
         seen = set()
         for n, tr in res.violations:
             c = tr[-1][1].get("cfg", {}) if tr else {}
